@@ -1,0 +1,481 @@
+//! Verification seams, compiled only with `--cfg mainline_verif`.
+//!
+//! Nothing in this module exists in a normal build. With the guard on, the
+//! crate's sources of nondeterminism (monotonic clock, wall clock, UDP socket,
+//! and the actor thread's scheduling) are routed through an [Env] installed by
+//! an external harness, and a few crate-private items are made reachable so
+//! that the harness can drive and observe real objects.
+//!
+//! The seams substitute the environment only; they change no behaviour of
+//! the library itself.
+
+#![allow(missing_docs, dead_code, clippy::unwrap_used, clippy::panic)]
+
+use std::fmt::Debug;
+use std::io;
+use std::net::{SocketAddr, SocketAddrV4, ToSocketAddrs};
+use std::sync::OnceLock;
+use std::time::Duration;
+
+use flume::{Receiver, Sender};
+
+use crate::actor::ActorMessage;
+use crate::common::{Id, Message, Node, RoutingTable};
+
+// === Re-exports of items that are public but live in private modules ===
+
+pub use crate::actor::config::Config;
+pub use crate::actor::{Actor, Info, ResponseSender};
+pub use crate::common::messages::*;
+pub use crate::common::{
+    hash_immutable, validate_immutable, ClosestNodes, KBucket, SignedAnnounce, MAX_BUCKET_SIZE_K,
+};
+pub use crate::core::iterative_query::GetRequestSpecific;
+pub use crate::core::server::Server;
+pub use crate::core::{Core, Response};
+
+// === Environment ===
+
+/// Everything nondeterministic the crate touches, owned by the harness.
+pub trait Env: Send + Sync + 'static {
+    /// Monotonic clock, nanoseconds since an arbitrary origin.
+    fn now_nanos(&self) -> u64;
+    /// Wall clock of the calling node, microseconds since the unix epoch.
+    fn unix_micros(&self) -> u64;
+
+    fn udp_bind(&self, addr: SocketAddr) -> io::Result<(u64, SocketAddr)>;
+    fn udp_set_read_timeout(&self, handle: u64, timeout: Option<Duration>);
+    fn udp_send_to(&self, handle: u64, buf: &[u8], to: SocketAddr) -> io::Result<usize>;
+    fn udp_recv_from(&self, handle: u64, buf: &mut [u8]) -> io::Result<(usize, SocketAddr)>;
+    fn udp_close(&self, handle: u64);
+
+    /// Called once when an actor thread enters `actor::run`.
+    fn actor_start(&self);
+    /// Called at the top of every iteration of the actor loop; blocks until
+    /// the harness grants the iteration. Returns `false` to make the actor
+    /// leave its loop (a crash / shutdown).
+    fn actor_turn(&self, snapshot: &dyn Fn() -> ActorSnapshot) -> bool;
+    /// Called when the actor thread leaves `actor::run`, for whatever reason.
+    fn actor_exit(&self, panicking: bool);
+}
+
+static ENV: OnceLock<Box<dyn Env>> = OnceLock::new();
+
+/// Install the environment. Can only be done once per process.
+pub fn set_env(env: Box<dyn Env>) {
+    if ENV.set(env).is_err() {
+        panic!("verif env already set");
+    }
+}
+
+fn env() -> &'static dyn Env {
+    ENV.get()
+        .expect("mainline_verif build used without verif::set_env")
+        .as_ref()
+}
+
+// === Monotonic clock ===
+
+#[derive(Clone, Copy, PartialEq, Eq, PartialOrd, Ord, Hash, Debug)]
+pub struct Instant(u64);
+
+impl Instant {
+    pub fn now() -> Self {
+        Instant(env().now_nanos())
+    }
+
+    pub fn elapsed(&self) -> Duration {
+        Duration::from_nanos(env().now_nanos().saturating_sub(self.0))
+    }
+
+    pub fn duration_since(&self, earlier: Instant) -> Duration {
+        Duration::from_nanos(self.0.saturating_sub(earlier.0))
+    }
+
+    pub fn as_nanos(&self) -> u64 {
+        self.0
+    }
+}
+
+// === Wall clock ===
+
+#[derive(Clone, Copy, PartialEq, Eq, PartialOrd, Ord, Hash, Debug)]
+pub struct SystemTime(u64);
+
+#[derive(Debug)]
+pub struct SystemTimeError;
+
+impl SystemTime {
+    pub const UNIX_EPOCH: SystemTime = SystemTime(0);
+
+    pub fn now() -> Self {
+        SystemTime(env().unix_micros())
+    }
+
+    pub fn duration_since(&self, earlier: SystemTime) -> Result<Duration, SystemTimeError> {
+        self.0
+            .checked_sub(earlier.0)
+            .map(Duration::from_micros)
+            .ok_or(SystemTimeError)
+    }
+}
+
+// === UDP ===
+
+#[derive(Debug)]
+pub struct UdpSocket {
+    handle: u64,
+    local: SocketAddr,
+}
+
+impl UdpSocket {
+    pub fn bind<A: ToSocketAddrs>(addr: A) -> io::Result<UdpSocket> {
+        let addr = addr
+            .to_socket_addrs()?
+            .next()
+            .ok_or_else(|| io::Error::new(io::ErrorKind::InvalidInput, "no address"))?;
+        let (handle, local) = env().udp_bind(addr)?;
+
+        Ok(UdpSocket { handle, local })
+    }
+
+    pub fn local_addr(&self) -> io::Result<SocketAddr> {
+        Ok(self.local)
+    }
+
+    pub fn set_read_timeout(&self, timeout: Option<Duration>) -> io::Result<()> {
+        env().udp_set_read_timeout(self.handle, timeout);
+        Ok(())
+    }
+
+    pub fn send_to<A: ToSocketAddrs>(&self, buf: &[u8], addr: A) -> io::Result<usize> {
+        let addr = addr
+            .to_socket_addrs()?
+            .next()
+            .ok_or_else(|| io::Error::new(io::ErrorKind::InvalidInput, "no address"))?;
+
+        env().udp_send_to(self.handle, buf, addr)
+    }
+
+    pub fn recv_from(&self, buf: &mut [u8]) -> io::Result<(usize, SocketAddr)> {
+        env().udp_recv_from(self.handle, buf)
+    }
+}
+
+impl Drop for UdpSocket {
+    fn drop(&mut self) {
+        env().udp_close(self.handle);
+    }
+}
+
+// === Actor thread baton ===
+
+/// Lives for the duration of `actor::run`; reports thread start and exit.
+pub struct ActorGuard;
+
+impl ActorGuard {
+    pub fn new() -> Self {
+        env().actor_start();
+        ActorGuard
+    }
+}
+
+impl Drop for ActorGuard {
+    fn drop(&mut self) {
+        env().actor_exit(std::thread::panicking());
+    }
+}
+
+pub fn actor_turn(actor: &Actor) -> bool {
+    env().actor_turn(&|| actor.verif_snapshot())
+}
+
+// === Wire codec access ===
+
+/// Public mirror of the crate-private `Message`.
+#[derive(Debug, Clone, PartialEq)]
+pub struct WireMessage {
+    pub transaction_id: u32,
+    pub version: Option<[u8; 4]>,
+    pub requester_ip: Option<SocketAddrV4>,
+    pub message_type: MessageType,
+    pub read_only: bool,
+}
+
+impl From<Message> for WireMessage {
+    fn from(m: Message) -> Self {
+        WireMessage {
+            transaction_id: m.transaction_id,
+            version: m.version,
+            requester_ip: m.requester_ip,
+            message_type: m.message_type,
+            read_only: m.read_only,
+        }
+    }
+}
+
+impl From<WireMessage> for Message {
+    fn from(m: WireMessage) -> Self {
+        Message {
+            transaction_id: m.transaction_id,
+            version: m.version,
+            requester_ip: m.requester_ip,
+            message_type: m.message_type,
+            read_only: m.read_only,
+        }
+    }
+}
+
+/// The crate's real decoder.
+pub fn decode(bytes: &[u8]) -> Result<WireMessage, String> {
+    Message::from_bytes(bytes)
+        .map(WireMessage::from)
+        .map_err(|e| format!("{e:?}"))
+}
+
+/// The crate's real encoder.
+pub fn encode(message: &WireMessage) -> Result<Vec<u8>, String> {
+    Message::from(message.clone())
+        .to_bytes()
+        .map_err(|e| format!("{e:?}"))
+}
+
+// === Access to crate-private operations ===
+
+pub fn core_handle_response(
+    core: &mut Core,
+    from: SocketAddrV4,
+    message: WireMessage,
+) -> Option<(Id, Response)> {
+    core.handle_response(from, message.into())
+}
+
+pub fn table_reset_id(table: &mut RoutingTable, id: Id) {
+    table.reset_id(id)
+}
+
+pub fn table_closest_secure(table: &RoutingTable, target: Id) -> Vec<Node> {
+    table.closest_secure(target)
+}
+
+pub fn node_with_token(id: Id, address: SocketAddrV4, token: &[u8]) -> Node {
+    Node::new_with_token(id, address, token.into())
+}
+
+pub fn node_snapshot(node: &Node) -> NodeSnapshot {
+    NodeSnapshot {
+        id: *node.id(),
+        address: node.address(),
+        token: node.token().map(|t| t.to_vec()),
+        last_seen: node.0.last_seen.as_nanos(),
+    }
+}
+
+pub fn mutable_item_from_wire(
+    target: Id,
+    key: &[u8],
+    v: &[u8],
+    seq: i64,
+    signature: &[u8],
+    salt: Option<&[u8]>,
+) -> Result<crate::MutableItem, String> {
+    crate::MutableItem::from_dht_message(target, key, v.into(), seq, signature, salt.map(|s| s.into()))
+        .map_err(|e| format!("{e:?}"))
+}
+
+pub fn signed_announce_with_timestamp(
+    signer: &crate::SigningKey,
+    info_hash: &Id,
+    timestamp: u64,
+) -> SignedAnnounce {
+    SignedAnnounce::new_with_timestamp(signer, info_hash, timestamp)
+}
+
+// === A Dht handle whose actor side is played by the harness ===
+
+/// The receiving end of a [crate::Dht]'s command channel.
+pub struct FakeActor(Receiver<ActorMessage>);
+
+#[derive(Debug)]
+pub enum FakeRequest {
+    Get(GetRequestSpecific, ResponseSender),
+    Put(
+        PutRequestSpecific,
+        Sender<Result<Id, crate::errors::PutError>>,
+        Option<Box<[Node]>>,
+    ),
+    Info(Sender<Info>),
+    Other,
+}
+
+pub fn fake_dht() -> (crate::Dht, FakeActor) {
+    let (sender, receiver) = flume::unbounded();
+
+    (crate::Dht(sender), FakeActor(receiver))
+}
+
+impl FakeActor {
+    fn convert(message: ActorMessage) -> FakeRequest {
+        match message {
+            ActorMessage::Get(request, sender) => FakeRequest::Get(request, sender),
+            ActorMessage::Put(request, sender, extra) => FakeRequest::Put(request, sender, extra),
+            ActorMessage::Info(sender) => FakeRequest::Info(sender),
+            _ => FakeRequest::Other,
+        }
+    }
+
+    /// Blocks until the handle sends a command; `None` once every handle is dropped.
+    pub fn recv(&self) -> Option<FakeRequest> {
+        self.0.recv().ok().map(Self::convert)
+    }
+
+    pub fn try_recv(&self) -> Option<FakeRequest> {
+        self.0.try_recv().ok().map(Self::convert)
+    }
+}
+
+// === Snapshots: plain data describing a node's internal state ===
+
+#[derive(Clone, Debug, PartialEq)]
+pub struct NodeSnapshot {
+    pub id: Id,
+    pub address: SocketAddrV4,
+    pub token: Option<Vec<u8>>,
+    pub last_seen: u64,
+}
+
+#[derive(Clone, Debug, PartialEq)]
+pub struct TableSnapshot {
+    pub id: Id,
+    /// (bucket key, nodes in bucket order: least recently seen first)
+    pub buckets: Vec<(u8, Vec<NodeSnapshot>)>,
+    pub dht_size_estimates_count: usize,
+    pub dht_size_estimates_sum: f64,
+    pub responders_samples_count: usize,
+    pub responders_size_estimates_sum: f64,
+    pub responders_subnets_sum: usize,
+}
+
+#[derive(Clone, Debug, PartialEq)]
+pub struct InflightSnapshot {
+    pub tid: u32,
+    pub to: SocketAddrV4,
+    pub sent_at: u64,
+}
+
+#[derive(Clone, Debug, PartialEq)]
+pub struct SocketSnapshot {
+    pub server_mode: bool,
+    pub local_addr: SocketAddrV4,
+    pub next_tid: u32,
+    /// Every entry of the in-flight table, expired or not.
+    pub inflight: Vec<InflightSnapshot>,
+    /// How many of them have not yet expired.
+    pub inflight_unexpired: usize,
+    pub inflight_capacity: usize,
+    pub estimated_rtt: Duration,
+    pub deviation_rtt: Duration,
+    pub request_timeout: Duration,
+    pub poll_interval: Duration,
+}
+
+#[derive(Clone, Debug, PartialEq)]
+pub struct TokensSnapshot {
+    pub prev_secret: [u8; 20],
+    pub curr_secret: [u8; 20],
+    pub last_updated: u64,
+}
+
+#[derive(Clone, Debug, PartialEq)]
+pub struct MutableSnapshot {
+    pub target: Id,
+    pub key: [u8; 32],
+    pub seq: i64,
+    pub value: Vec<u8>,
+    pub signature: [u8; 64],
+    pub salt: Option<Vec<u8>>,
+}
+
+/// All stores are listed most-recently-used first.
+#[derive(Clone, Debug, PartialEq)]
+pub struct ServerSnapshot {
+    pub tokens: TokensSnapshot,
+    pub peers: Vec<(Id, Vec<(Id, SocketAddrV4)>)>,
+    pub peers_cap: (usize, usize),
+    pub signed_peers: Vec<(Id, Vec<([u8; 32], u64, [u8; 64])>)>,
+    pub signed_peers_cap: (usize, usize),
+    pub immutable: Vec<(Id, Vec<u8>)>,
+    pub immutable_cap: usize,
+    pub mutable: Vec<MutableSnapshot>,
+    pub mutable_cap: usize,
+}
+
+/// 0 ping, 1 find_node, 2 get_peers, 3 get_signed_peers, 4 get (value), 5 put
+pub fn request_kind(request_type: &RequestTypeSpecific) -> u8 {
+    match request_type {
+        RequestTypeSpecific::Ping => 0,
+        RequestTypeSpecific::FindNode(_) => 1,
+        RequestTypeSpecific::GetPeers(_) => 2,
+        RequestTypeSpecific::GetSignedPeers(_) => 3,
+        RequestTypeSpecific::GetValue(_) => 4,
+        RequestTypeSpecific::Put(_) => 5,
+    }
+}
+
+#[derive(Clone, Debug, PartialEq)]
+pub struct CachedQuerySnapshot {
+    pub target: Id,
+    pub closest_responding_nodes: Vec<NodeSnapshot>,
+    pub dht_size_estimate: f64,
+    pub responders_dht_size_estimate: f64,
+    pub subnets: u8,
+    pub request_kind: u8,
+}
+
+#[derive(Clone, Debug, PartialEq)]
+pub struct IterativeQuerySnapshot {
+    pub target: Id,
+    pub request_kind: u8,
+    pub closest: Vec<NodeSnapshot>,
+    pub responders: Vec<NodeSnapshot>,
+    pub inflight_requests: Vec<u32>,
+    pub visited: Vec<SocketAddrV4>,
+    pub responses: usize,
+    pub public_address_votes: Vec<(SocketAddrV4, u32)>,
+}
+
+#[derive(Clone, Debug, PartialEq)]
+pub struct PutQuerySnapshot {
+    pub target: Id,
+    pub stored_at: u8,
+    pub inflight_requests: Vec<u32>,
+    pub errors: Vec<(u8, i32)>,
+    pub extra_nodes: usize,
+    pub request: PutRequestSpecific,
+}
+
+#[derive(Clone, Debug, PartialEq)]
+pub struct CoreSnapshot {
+    pub bootstrap: Vec<SocketAddrV4>,
+    pub routing_table: TableSnapshot,
+    pub signed_peers_routing_table: TableSnapshot,
+    /// Most recently used first.
+    pub cached_iterative_queries: Vec<CachedQuerySnapshot>,
+    pub iterative_queries: Vec<IterativeQuerySnapshot>,
+    pub put_queries: Vec<PutQuerySnapshot>,
+    pub last_table_refresh: u64,
+    pub last_table_ping: u64,
+    pub server: ServerSnapshot,
+    pub public_address: Option<SocketAddrV4>,
+    pub firewalled: bool,
+    pub server_mode: bool,
+}
+
+#[derive(Clone, Debug, PartialEq)]
+pub struct ActorSnapshot {
+    /// (target, number of parked callers)
+    pub put_senders: Vec<(Id, usize)>,
+    pub get_senders: Vec<(Id, usize)>,
+    pub socket: SocketSnapshot,
+    pub core: CoreSnapshot,
+}
